@@ -1,5 +1,6 @@
 import TrionModel.Model.Asm
 import TrionModel.Props.C12Parse
+import TrionModel.Lemmas.AsmStmtPos
 /-!
 # C12 (pipeline clause) — a diagnostic raised for a statement carries the statement's file, line and column
 
@@ -7,17 +8,13 @@ Model: `Trion.Asm` (Model/Asm.lean).  `Parse.stmt_pos` (Props/C12Parse.lean) say
 column of its first token; `Asm.statement` hands exactly `el.line`/`el.col` to every directive and to
 `Arm6M::assemble`, and `push_error` adds the name of the file being read (`env.curName`).
 
-FULL-STRENGTH STATEMENT (kept visible):
-    theorem diag_pos : statement fs enc inc env st el = .ok (st', r) → every diagnostic of `st'.errors` that is
-      not in `st.errors` and was not raised inside an included file is ⟨env.curName, el.line, el.col, _⟩; and
-      every task the statement queues reports ⟨env.curName, el.line, el.col, _⟩ when it runs.
-Proved below (`…_partial`): the statements that neither defer nor include — `.addr`, `.const`,
-`.dhex`, `.dstr`, `.dfile`, labels, unknown directives, statements outside a region, the end-of-file parse
-error.  Missing: `.du8/.du16/.du32` and instructions (their `DataExpr`/`ArmInstr` store `env.curName, line, col`
-at creation — `duDirective`, `instruction` — and no function of the model changes these fields, so the retries
-report the same position: `data_keeps_pos` for `DataExpr.apply`; `ArmInstr.assemble` by inspection), `.align`,
-`.global/.import/.export`, `.include` (the child's diagnostics carry the child's positions).  All of them are
-compared with the implementation on every generated project (`model.asm.run`: file, line, col of every diagnostic).
+`diag_pos` (full): whatever a statement other than `.include` adds to the context — diagnostics, and the tasks it
+queues for a later retry — carries `⟨env.curName, el.line, el.col⟩`; `diag_pos_task`: whatever a task adds when it
+runs (diagnostics, the re-queued task) carries the position the task was created with (`.global`'s closure stores
+line and column and reports in the file whose loop runs it, which is the file that queued it); `diag_pos_include`:
+`.include` adds the included file's own diagnostics (which carry that file's positions, by the same theorems one
+level down) and at most the final `AssemblyFailed` diagnostic at its own position.  The older `diag_pos_partial`
+(at most ONE diagnostic for the statements that neither defer nor include) is kept.
 -/
 namespace Trion.Asm
 open Trion
@@ -38,12 +35,6 @@ theorem addr_diag_pos {env : Env} {st st' : St} {line col : Nat} {args : List Ar
   unfold addrDirective at h
   repeat' split at h
   all_goals (first | (cases h; done) | (cases h; exact .inr ⟨_, rfl⟩) | (cases h; exact .inl rfl) | (cases h; exact evalStrict_pos ‹evalStrict _ _ _ _ _ _ = _›))
-
-theorem insertConstant_errs {st st' : St} {n : Bytes} {v : Int} {r : Realm} {x : Except CErr Bool}
-    (h : insertConstant st n v r = .ok (st', x)) : st'.errors = st.errors := by
-  unfold insertConstant at h
-  repeat' split at h
-  all_goals (first | (cases h; done) | (cases h; rfl))
 
 /-- C12.diag_pos, `.const` -/
 theorem const_diag_pos {env : Env} {st st' : St} {line col : Nat} {args : List Arg} {r : Res}
@@ -135,6 +126,35 @@ theorem data_keeps_pos {d d' : DataExpr} {env : Env} {st st' : St} {loc : Bool} 
   unfold DataExpr.apply at h
   repeat' split at h
   all_goals (first | (cases h; done) | (cases h; exact ⟨rfl, rfl, rfl⟩) | (cases h; rename_i hw; have k := writer_keeps_pos hw; exact k))
+
+
+/-- C12.diag_pos  Every diagnostic that is recorded and every task that is queued while a statement other than
+`.include` is processed carries the name of the file being read and the line and column of the element, which
+(`Parse.stmt_pos`) are the line and column of the statement's first token.  (`Eff f l c st st'`: every diagnostic
+of `st'` is one of `st` or is at `(f, l, c)`; likewise for both task queues.) -/
+theorem diag_pos {fs : Bytes → Option Bytes} {enc : Encoder} {inc : Inc} {env : Env} {st st' : St} {el : Element} {r : Res}
+    (hni : ∀ as, el.val ≠ .directive (bytesOf "include") as)
+    (h : statement fs enc inc env st el = .ok (st', r)) : Eff env.curName el.line el.col st st' :=
+  statement_eff hni _ _ h
+
+/-- C12.diag_pos, deferred statements: when a queued task runs (end of the file, end of the includer, `finalize`),
+every diagnostic it records and the task it re-queues carry the position stored in the task — by `diag_pos` the
+position of the statement that queued it. -/
+theorem diag_pos_task {enc : Encoder} {env : Env} {st st' : St} {t : Task} {f : Bytes} {l c : Nat} {r : Res}
+    (ht : t.at f l c) (hf : ∀ n l' c', t = .globalCopy n l' c' → f = env.curName)
+    (h : runTask enc env st t = .ok (st', r)) : Eff f l c st st' :=
+  runTask_eff ht hf _ _ h
+
+/-- C12.diag_pos, `.include`: apart from what the included file records itself, the statement adds at most the
+final diagnostic at its own position. -/
+theorem diag_pos_include {fs : Bytes → Option Bytes} {inc : Inc} {env : Env} {st st' : St} {line col : Nat}
+    {args : List Arg} {r : Res} (h : includeDirective fs inc env st line col args = .ok (st', r)) :
+    Eff env.curName line col st st' ∨
+    ∃ data path st1 r1, fs path = some data ∧ inc env st data path = .ok (st1, r1) ∧ Eff env.curName line col st1 st' :=
+  includeDirective_eff _ _ h
+
+-- non-vacuity: a `.du8` with an unknown name queues a task at the statement's position
+example : (Task.data ⟨.u8, [109], 3, 5, 0, .ident [120], true⟩ false).at [109] 3 5 := ⟨rfl, rfl, rfl⟩
 
 -- non-vacuity: `.addr "x";` at 3:5 of file `m` raises exactly one diagnostic there
 example : ∃ k, (addrDirective ⟨[[109]], [109]⟩ { St.init with locals := some [], localTasks := some [] } 3 5 [.str [120]]) =
